@@ -540,6 +540,10 @@ def _handle(ctx, report, jobs, meta, results, st):
                 report({"kind": "trans", "case": c, "detail": detail,
                         "how": "disorder.transitions(array) vs Transitions.tla Def"}, key)
         st["n_tr"] += len(cases)
+    # growth beyond the listed property: what the transition bookkeeping feeds -- the order/disorder pipeline of
+    # cards/disorder.py (specs/geometry/Disorder.tla, which instantiates Transitions.tla)
+    from props import x_disorder
+    x_disorder.run_part(ctx)
 
 
 def replay(ctx, path):
